@@ -92,6 +92,7 @@ OpenRetViol(e) ==
            ELSE IF o = "session" THEN Check("C01", "honest-handshake-succeeds", FALSE)
            ELSE IF o \in {"error", "ErrIncorrectPassword"} THEN Check("C02", "error-not-crash", FALSE)
            ELSE IF o = "anyerror" THEN Check("C12", "error-never-panic", FALSE)
+           ELSE IF o = "userTooLong" THEN Check("C06", "username-longer-than-16-bytes-rejected-not-truncated", FALSE)
            ELSE IF o = "errorOrSession" THEN Check("C01", "none-suite-refused-or-sound", FALSE) \cup Check("C12", "error-never-panic", FALSE)
            ELSE {})
      \cup (IF crashed THEN {}
@@ -107,6 +108,7 @@ OpenRetViol(e) ==
                      \cup Check("C02", "wrong-rakp2-gives-incorrect-password", e.err => e.errClass = "ErrIncorrectPassword")
            ELSE IF o = "error" THEN Check("C02", "no-session-from-mutated-transcript", e.err)
            ELSE IF o = "anyerror" THEN Check("C12", "no-session-unless-response-confirms-proposal", e.err)
+           ELSE IF o = "userTooLong" THEN Check("C06", "username-longer-than-16-bytes-rejected-not-truncated", e.err)
            ELSE {})
 
 CmdRetViol(e) ==
@@ -120,6 +122,7 @@ SessionViol(e) ==
   ELSE IF exp.outcome = "session" THEN Check("C01", "keys-agree", e.have /\ e.sikOK /\ e.k1OK /\ e.k2OK)
   ELSE IF exp.outcome \in {"error", "ErrIncorrectPassword"} THEN Check("C02", "no-session-object", ~e.have)
   ELSE IF exp.outcome = "anyerror" THEN Check("C12", "no-session-object", ~e.have)
+  ELSE IF exp.outcome = "userTooLong" THEN Check("C06", "username-longer-than-16-bytes-rejected-not-truncated", ~e.have)
   ELSE IF exp.outcome = "errorOrSession" THEN Check("C01", "none-suite-refused-or-sound", ~e.have \/ (e.sikOK /\ e.k1OK /\ e.k2OK))
   ELSE {}
 
